@@ -16,11 +16,16 @@ def ChkInv (x : Chk) : Prop :=
   (x.synced = true → (x.schedulable = true ↔ (x.inIdle = true ∨ x.inPending = true))) ∧
   (x.keySynced = true → x.inIdle = true → x.idleKey = x.nextCheck) ∧
   (x.procs : Int) = (x.hs : Int) + x.pbal ∧
-  (x.inPending = true → 0 < x.hq + x.hx + x.hs + x.hr + x.hd)
+  (x.inPending = true → 0 < x.hq + x.hu + x.hx + x.hs + x.hr + x.hd)
 
 /-- Single-flight invariant: command bodies, running processes and finished processes whose result is still on its
     way — together 1 iff `m_CheckRunning`, else 0. -/
 def FlightInv (x : Chk) : Prop := x.hx + x.procs + x.pz = if x.running then 1 else 0
+
+/-- Re-arming invariant: while an execution attempt that has passed `ExecuteCheck`'s early `UpdateNextCheck()` is outstanding and no
+    outside party has written `next_check` since the (earliest outstanding) dispatch, `next_check` lies after that dispatch. -/
+def RearmInv (x : Chk) : Prop :=
+  x.foreign = false → 0 < x.hu + x.hx + x.hs + x.hr + x.hd → x.dispatchedAt < x.nextCheck
 
 /-- Global invariant: per-checkable invariants, the counter is the sum of the units held, and the slots in use
     (helpers that may still start something or run a command body, plus running processes) never exceed
@@ -49,6 +54,12 @@ theorem keeps_objectHandler (x : Chk) (h : ChkInv x) : Keeps x x.objectHandler 0
 theorem keeps_setNextCheck (x : Chk) (v : Int) (h : ChkInv x) : Keeps x (x.setNextCheck v) 0 := by
   unfold Keeps ChkInv Chk.setNextCheck Chk.schedulable Chk.units Chk.slots at *; grind
 
+theorem keeps_ownResched (x : Chk) (v : Int) (h : ChkInv x) : Keeps x (x.ownResched v) 0 := by
+  unfold Keeps ChkInv Chk.ownResched Chk.schedulable Chk.units Chk.slots at *; grind
+
+theorem keeps_rearm (x : Chk) (v : Int) (hq : 0 < x.hq) (h : ChkInv x) : Keeps x (x.rearm v) 0 := by
+  unfold Keeps ChkInv Chk.rearm Chk.schedulable Chk.units Chk.slots at *; grind
+
 theorem keeps_nextCheckChanged (x : Chk) (h : ChkInv x) : Keeps x x.nextCheckChanged 0 := by
   unfold Keeps ChkInv Chk.nextCheckChanged Chk.schedulable Chk.units Chk.slots at *; grind
 
@@ -59,11 +70,11 @@ theorem keeps_skip (x : Chk) (hi : x.inIdle = true) (h : ChkInv x) : Keeps x x.s
   unfold Keeps ChkInv Chk.skip Chk.schedulable Chk.units Chk.slots at *; grind
 
 /-- the dispatch is the one transition that takes a slot -/
-theorem pick_facts (x : Chk) (hi : x.inIdle = true) (h : ChkInv x) :
-    ChkInv x.pick ∧ x.pick.units = x.units + 1 ∧ x.pick.slots = x.slots + 1 := by
+theorem pick_facts (x : Chk) (now : Int) (hi : x.inIdle = true) (h : ChkInv x) :
+    ChkInv (x.pick now) ∧ (x.pick now).units = x.units + 1 ∧ (x.pick now).slots = x.slots + 1 := by
   unfold ChkInv Chk.pick Chk.schedulable Chk.units Chk.slots at *; grind
 
-theorem keeps_helperGuard (x : Chk) (hq : 0 < x.hq) (h : ChkInv x) : Keeps x x.helperGuard 0 := by
+theorem keeps_helperGuard (x : Chk) (hq : 0 < x.hu) (h : ChkInv x) : Keeps x x.helperGuard 0 := by
   unfold Keeps ChkInv Chk.helperGuard Chk.schedulable Chk.units Chk.slots at *; grind
 
 theorem keeps_result (x : Chk) (hx : 0 < x.hx) (h : ChkInv x) : Keeps x x.result 0 := by
@@ -197,6 +208,14 @@ theorem inv_step (s s' : St) (a : Act) (h : Inv s) (hs : step s a = some s') : I
   | setNextCheck c v =>
     simp only [step] at hs; split at hs <;> simp at hs; subst hs
     exact inv_upd0 s c _ (by assumption) h (keeps_setNextCheck _ v (h.1 c))
+  | ownResched c now v =>
+    simp only [step] at hs; split at hs <;> simp at hs; subst hs
+    rename_i hg
+    exact inv_upd0 s c _ hg.1 h (keeps_ownResched _ v (h.1 c))
+  | rearm c now v =>
+    simp only [step] at hs; split at hs <;> simp at hs; subst hs
+    rename_i hg
+    exact inv_upd0 s c _ hg.1 h (keeps_rearm _ v hg.2.1 (h.1 c))
   | nextCheckChanged c =>
     simp only [step] at hs; split at hs <;> simp at hs; subst hs
     exact inv_upd0 s c _ (by assumption) h (keeps_nextCheckChanged _ (h.1 c))
@@ -214,15 +233,15 @@ theorem inv_step (s s' : St) (a : Act) (h : Inv s) (hs : step s a = some s') : I
       · simp at hs; subst hs
         have hsl := slots_le_counter s h
         obtain ⟨h1, h2, h3⟩ := h
-        obtain ⟨p1, p2, p3⟩ := pick_facts _ hidle (h1 c)
+        obtain ⟨p1, p2, p3⟩ := pick_facts _ now hidle (h1 c)
         refine ⟨?_, ?_, ?_⟩
-        · intro i; show ChkInv ((s.upd c (s.chk c).pick).chk i)
+        · intro i; show ChkInv ((s.upd c ((s.chk c).pick now)).chk i)
           simp only [St.upd]; split
           · exact p1
           · exact h1 i
-        · show s.counter + 1 = sumTo (s.upd c (s.chk c).pick).n (fun i => Chk.units ((s.upd c (s.chk c).pick).chk i))
+        · show s.counter + 1 = sumTo (s.upd c ((s.chk c).pick now)).n (fun i => Chk.units ((s.upd c ((s.chk c).pick now)).chk i))
           rw [sum_upd Chk.units s c _ hc, p2]; omega
-        · show sumTo (s.upd c (s.chk c).pick).n (fun i => Chk.slots ((s.upd c (s.chk c).pick).chk i)) ≤ s.max
+        · show sumTo (s.upd c ((s.chk c).pick now)).n (fun i => Chk.slots ((s.upd c ((s.chk c).pick now)).chk i)) ≤ s.max
           rw [sum_upd Chk.slots s c _ hc, p3]; omega
     · simp at hs
   | helperGuard c =>
@@ -291,6 +310,12 @@ theorem flight_step (s s' : St) (a : Act) (h : ∀ c, FlightInv (s.chk c))
   | setNextCheck c v =>
     simp only [step] at hs; split at hs <;> simp at hs; subst hs
     exact key c _ (by have := h c; unfold FlightInv Chk.setNextCheck at *; grind)
+  | ownResched c now v =>
+    simp only [step] at hs; split at hs <;> simp at hs; subst hs
+    exact key c _ (by have := h c; unfold FlightInv Chk.ownResched at *; grind)
+  | rearm c now v =>
+    simp only [step] at hs; split at hs <;> simp at hs; subst hs
+    exact key c _ (by have := h c; unfold FlightInv Chk.rearm at *; grind)
   | nextCheckChanged c =>
     simp only [step] at hs; split at hs <;> simp at hs; subst hs
     exact key c _ (by have := h c; unfold FlightInv Chk.nextCheckChanged at *; grind)
@@ -348,6 +373,99 @@ theorem flight_run (acts : List Act) (s s' : St)
     · rename_i s1 hs1
       exact ih s1 (flight_step s s1 a h hs1) hr
     · simp at hr
+
+
+/-! ### re-arming -/
+
+theorem rearm_step (s s' : St) (a : Act) (h : ∀ c, RearmInv (s.chk c))
+    (hs : step s a = some s') : ∀ c, RearmInv (s'.chk c) := by
+  have key : ∀ (c : Nat) (x : Chk), RearmInv x → ∀ i, RearmInv ((s.upd c x).chk i) := by
+    intro c x hx i; simp only [St.upd]; split
+    · exact hx
+    · exact h i
+  cases a with
+  | setActive c b =>
+    simp only [step] at hs; split at hs <;> simp at hs; subst hs
+    exact key c _ (by have := h c; unfold RearmInv Chk.setActive at *; grind)
+  | setPaused c b =>
+    simp only [step] at hs; split at hs <;> simp at hs; subst hs
+    exact key c _ (by have := h c; unfold RearmInv Chk.setPaused at *; grind)
+  | objectHandler c =>
+    simp only [step] at hs; split at hs <;> simp at hs; subst hs
+    exact key c _ (by have := h c; unfold RearmInv Chk.objectHandler Chk.idleInsert at *; grind)
+  | setNextCheck c v =>
+    simp only [step] at hs; split at hs <;> simp at hs; subst hs
+    exact key c _ (by unfold RearmInv Chk.setNextCheck; simp)
+  | ownResched c now v =>
+    simp only [step] at hs; split at hs <;> simp at hs; subst hs
+    rename_i hg
+    exact key c _ (by have := h c; have := hg.2; unfold RearmInv Chk.ownResched at *; grind)
+  | rearm c now v =>
+    simp only [step] at hs; split at hs <;> simp at hs; subst hs
+    rename_i hg
+    exact key c _ (by have := h c; have := hg.2; unfold RearmInv Chk.rearm at *; grind)
+  | nextCheckChanged c =>
+    simp only [step] at hs; split at hs <;> simp at hs; subst hs
+    exact key c _ (by have := h c; unfold RearmInv Chk.nextCheckChanged at *; grind)
+  | force c =>
+    simp only [step] at hs; split at hs <;> simp at hs; subst hs
+    exact key c _ (by have := h c; unfold RearmInv Chk.force at *; grind)
+  | sched c now i =>
+    simp only [step] at hs
+    split at hs
+    · split at hs
+      · simp at hs; subst hs
+        exact key c _ (by have := h c; unfold RearmInv Chk.skip at *; grind)
+      · simp at hs; subst hs
+        exact key c _ (by have := h c; unfold RearmInv Chk.pick at *; grind)
+    · simp at hs
+  | helperGuard c =>
+    simp only [step] at hs; split at hs <;> simp at hs; subst hs
+    rename_i hg
+    exact key c _ (by have := h c; have := hg.2; unfold RearmInv Chk.helperGuard at *; grind)
+  | result c =>
+    simp only [step] at hs; split at hs <;> simp at hs; subst hs
+    rename_i hg
+    exact key c _ (by have := h c; have := hg.2; unfold RearmInv Chk.result at *; grind)
+  | spawn c =>
+    simp only [step] at hs; split at hs <;> simp at hs; subst hs
+    rename_i hg
+    exact key c _ (by have := h c; have := hg.2; unfold RearmInv Chk.spawn at *; grind)
+  | pluginInc c =>
+    simp only [step] at hs; split at hs <;> simp at hs; subst hs
+    rename_i hg
+    exact key c _ (by have := h c; have := hg.2; unfold RearmInv Chk.pluginInc at *; grind)
+  | procExit c =>
+    simp only [step] at hs; split at hs <;> simp at hs; subst hs
+    exact key c _ (by have := h c; unfold RearmInv Chk.procExit at *; grind)
+  | procResult c =>
+    simp only [step] at hs; split at hs <;> simp at hs; subst hs
+    exact key c _ (by have := h c; unfold RearmInv Chk.procResult at *; grind)
+  | passiveResult c =>
+    simp only [step] at hs; split at hs <;> simp at hs; subst hs
+    exact key c _ (by have := h c; unfold Chk.passiveResult; exact this)
+  | helperDec c =>
+    simp only [step] at hs; split at hs <;> simp at hs; subst hs
+    rename_i hg
+    exact key c _ (by have := h c; have := hg.2; unfold RearmInv Chk.helperDec at *; grind)
+  | helperFinish c =>
+    simp only [step] at hs; split at hs <;> simp at hs; subst hs
+    rename_i hg
+    exact key c _ (by have := h c; have := hg.2; unfold RearmInv Chk.helperFinish Chk.idleInsert at *; grind)
+
+theorem rearm_run (acts : List Act) (s s' : St)
+    (h : ∀ c, RearmInv (s.chk c)) (hr : run s acts = some s') : ∀ c, RearmInv (s'.chk c) := by
+  induction acts generalizing s with
+  | nil => simp [run] at hr; subst hr; exact h
+  | cons a as ih =>
+    simp only [run] at hr
+    split at hr
+    · rename_i s1 hs1
+      exact ih s1 (rearm_step s s1 a h hs1) hr
+    · simp at hr
+
+theorem rearm_init (n : Nat) (max : Int) : ∀ c, RearmInv ((init n max).chk c) := by
+  intro c; unfold RearmInv init; simp
 
 /-! ### `n` and `max` never change -/
 
